@@ -86,6 +86,35 @@ impl Lean {
     }
 }
 
+impl Lean {
+    /// allocation-free fast path for the 2^32 sweeps: Some(true) = the call was Ok and sent exactly one
+    /// well-formed VSCRDEF satisfying the arithmetic oracle; Some(false)/None = look closer with `call`
+    #[inline]
+    fn fast_region(&mut self, h: u16, top: u16, bottom: u16) -> bool {
+        {
+            let mut b = self.rig.bd.borrow_mut();
+            b.evs.clear();
+            b.bytes.clear();
+        }
+        let d = self.rig.dut.as_mut().unwrap();
+        let ok = std::panic::catch_unwind(std::panic::AssertUnwindSafe(|| d.scroll_region(top, bottom).is_ok())).unwrap_or(false);
+        if !ok {
+            return false;
+        }
+        let b = self.rig.bd.borrow();
+        if b.evs.len() != 1 || b.bytes.len() != 6 {
+            return false;
+        }
+        if !matches!(b.evs[0], Ev::Cmd { op: 0x33, len: 6, ok: true, .. }) {
+            return false;
+        }
+        let p = &b.bytes;
+        let be = |i: usize| ((p[i] as u64) << 8) | p[i + 1] as u64;
+        let (tfa, vsa, bfa) = (be(0), be(2), be(4));
+        tfa + vsa + bfa == h as u64 && (top as u64 + bottom as u64 > h as u64 || (tfa == top as u64 && bfa == bottom as u64))
+    }
+}
+
 fn check_region(h: u16, top: u16, bottom: u16, out: &Outcome, cmds: &[(u8, Vec<u8>)]) -> Option<(String, String)> {
     let class = if top as u32 + bottom as u32 > 65535 {
         "top+bottom>=65536"
@@ -115,6 +144,26 @@ fn check_region(h: u16, top: u16, bottom: u16, out: &Outcome, cmds: &[(u8, Vec<u
     None
 }
 
+fn one_slow(ctx: &Ctx, acc: &mut Acc, lean: &mut Lean, cfg: &Cfg, h: u16, top: u16, bottom: u16) {
+    let op = Op::ScrollRegion(top, bottom);
+    let (out, cmds) = lean.call(&op);
+    acc.evaluations += 1;
+    if top as u32 + bottom as u32 > h as u32 {
+        acc.nontrivial += 1;
+    }
+    if let Some((sig, msg)) = check_region(h, top, bottom, &out, &cmds) {
+        acc.violation(Violation { prop: ctx.prop.clone(), sig, msg, case: json!({"variant": ctx.variant, "cfg": cfg, "faults": [], "history": [op], "checks": "c16"}) });
+        // a panicking call may leave the display in an unknown state: rebuild
+        if !out.is_ok() {
+            *lean = Lean::new(cfg);
+        }
+    } else {
+        let mut hsh = crate::util::Fnv::new();
+        hsh.bytes(&cmds[0].1);
+        acc.outcome(hsh.finish());
+    }
+}
+
 fn run(ctx: &Ctx) -> Part {
     let t0 = Instant::now();
     let quick = ctx.quick();
@@ -140,25 +189,7 @@ fn run(ctx: &Ctx) -> Part {
                 let cfg = Cfg { orient: o, ..*base };
                 let mut lean = Lean::new(&cfg);
                 let lat = lattice(h);
-                let mut one = |acc: &mut Acc, top: u16, bottom: u16| {
-                    let op = Op::ScrollRegion(top, bottom);
-                    let (out, cmds) = lean.call(&op);
-                    acc.evaluations += 1;
-                    if top as u32 + bottom as u32 > h as u32 {
-                        acc.nontrivial += 1;
-                    }
-                    if let Some((sig, msg)) = check_region(h, top, bottom, &out, &cmds) {
-                        acc.violation(Violation { prop: ctx.prop.clone(), sig, msg, case: json!({"variant": ctx.variant, "cfg": cfg, "faults": [], "history": [op], "checks": "c16"}) });
-                        // a panicking call may leave the display in an unknown state: rebuild
-                        if !out.is_ok() {
-                            lean = Lean::new(&cfg);
-                        }
-                    } else {
-                        let mut hsh = crate::util::Fnv::new();
-                        hsh.bytes(&cmds[0].1);
-                        acc.outcome(hsh.finish());
-                    }
-                };
+                let mut one = |acc: &mut Acc, top: u16, bottom: u16| one_slow(ctx, acc, &mut lean, &cfg, h, top, bottom);
                 if lo == hi {
                     for &t in &lat {
                         for &b in &lat {
@@ -168,7 +199,16 @@ fn run(ctx: &Ctx) -> Part {
                 } else {
                     for t in lo..hi {
                         for b in 0..=65535u32 {
-                            one(&mut acc, t as u16, b as u16);
+                            // fast path first; anything unusual is re-examined (and reported) by the slow path
+                            if lean.fast_region(h, t as u16, b as u16) {
+                                acc.evaluations += 1;
+                                if t + b > h as u32 {
+                                    acc.nontrivial += 1;
+                                }
+                            } else {
+                                lean = Lean::new(&cfg);
+                                one_slow(ctx, &mut acc, &mut lean, &cfg, h, t as u16, b as u16);
+                            }
                         }
                     }
                 }
